@@ -193,3 +193,37 @@ Example c12_example :
   = [XSetup 0; XSendCmd 0 Unicast 0x1000 1; XSendCmd 1 Unicast 0x1001 2; XDone 1 ResOk; XSetup 0;
      XSendCmd 0 Unicast 0x1000 1; XDone 0 ResOk].
 Proof. vm_compute. reflexivity. Qed.
+
+(* ---- the positive halves (proofs/SendPacketPos_proofs.v) ------------------------------------------- *)
+Require Import BV.proofs.SendPacketPos_proofs.
+
+Theorem c12_confirmed_success_returns : forall es r, sends_unique es -> In r (s_reqs (sfinal es)) ->
+  q_stage r = RConfirm ->
+  In (XDone (q_id r) ResOk) (snd (sstep (sfinal es) (SConfirm (q_dst r) (q_tag r) true))).
+Proof. exact confirmed_success_returns_run. Qed.
+
+(* a confirmation that arrives before its request waits for it (still queued for the lock, in set-up, sending or
+   backing off) completes nothing but is remembered ... *)
+Theorem c12_early_confirmation_remembered : forall st r ok,
+  rfind_tag (q_dst r) (q_tag r) (s_reqs st) = Some r -> q_confirmed r = None -> q_stage r <> RConfirm ->
+  snd (sstep st (SConfirm (q_dst r) (q_tag r) ok)) = []
+  /\ exists r', rget (q_id r) (s_reqs (fst (sstep st (SConfirm (q_dst r) (q_tag r) ok)))) = Some r'
+                /\ q_confirmed r' = Some ok /\ q_stage r' = q_stage r.
+Proof. exact early_confirmation_remembered. Qed.
+
+(* ... and decides the outcome the moment the NCP accepts the message *)
+Theorem c12_accepted_with_early_confirmation : forall st r ok,
+  rget (q_id r) (s_reqs st) = Some r -> q_stage r = RSend -> q_kind r = Unicast -> q_confirmed r = Some ok ->
+  In (XDone (q_id r) (if ok then ResOk else ResDeliveryError)) (snd (sstep st (SReply (q_id r) EnqOk))).
+Proof. exact accepted_with_early_confirmation. Qed.
+
+Theorem c12_multicast_broadcast_need_no_confirmation : forall st r,
+  rget (q_id r) (s_reqs st) = Some r -> q_stage r = RSend -> q_kind r <> Unicast ->
+  In (XDone (q_id r) ResOk) (snd (sstep st (SReply (q_id r) EnqOk))).
+Proof. exact multicast_broadcast_need_no_confirmation. Qed.
+
+Example c12_confirmation_before_reply :
+  snd (srun s_init [SSend 1 Unicast 7 0; SConfirm 7 1 true; SReply 1 EnqOk])
+  = [[XSendCmd 1 Unicast 7 1]; []; [XDone 1 ResOk]]
+  /\ s_reqs (fst (srun s_init [SSend 1 Unicast 7 0; SConfirm 7 1 true; SReply 1 EnqOk])) = [].
+Proof. exact confirmation_before_reply. Qed.
